@@ -6,8 +6,11 @@ use num::bigint::{BigInt, BigUint};
 use serde_json::json;
 use std::collections::BTreeMap;
 
-fn steps_of(b: u16) -> u64 {
-    match idx(b, 12) {
+/// Step counts, including huge ones: the per-actor total is a u64 (the caller must not overflow it: `cur` is the
+/// actor's current total and the step is clamped to what still fits), but the SUM over actors is documented to be
+/// exact (BigUint / BigInt reads), so totals of 2^63 and more per actor are within the domain.
+fn steps_of(b: u16, cur: u64) -> u64 {
+    let st = match idx(b, 16) {
         0 => 0,
         1 | 2 | 3 => 1,
         4 | 5 => 2,
@@ -16,9 +19,17 @@ fn steps_of(b: u16) -> u64 {
         8 => 1000,
         9 => 65_536,
         10 => 1u64 << 32,
+        11 => 1u64 << 62,
+        12 => 1u64 << 63,
+        13 => COUNTER_LIMIT.saturating_sub(cur),
+        14 => u64::MAX / 3,
         _ => (b as u64) + 1,
-    }
+    };
+    st.min(COUNTER_LIMIT.saturating_sub(cur))
 }
+/// per-actor totals stay below this, so that neither the library's `counter + 1` (inc, validate_op) nor the
+/// harness's own clock arithmetic can overflow a u64: overflowing one actor's total is the caller's error
+pub const COUNTER_LIMIT: u64 = u64::MAX - (1 << 40);
 
 fn per_actor_max(metas: &[OpMeta], know: Bits, pos: Option<bool>) -> BTreeMap<u8, u64> {
     let mut c = BTreeMap::new();
@@ -131,10 +142,11 @@ impl Subject for SGCounter {
     }
     fn edit(s: &Self::St, actor: Option<u8>, e: EditArgs, _aux: &mut Aux) -> Option<(Self::Op, Sem, String)> {
         let a = actor?;
-        let (dot, steps, call) = if idx(e.kind, 2) == 0 {
+        let cur = s.inc_many(a, 0).counter;
+        let (dot, steps, call) = if idx(e.kind, 2) == 0 && cur < COUNTER_LIMIT {
             (s.inc(a), 1, format!("inc({a})"))
         } else {
-            let st = steps_of(e.b);
+            let st = steps_of(e.b, cur);
             (s.inc_many(a, st), st, format!("inc_many({a}, {st})"))
         };
         Some((dot, Sem::Inc { dot: (dot.actor, dot.counter), steps, pos: true }, format!("{call} -> {dot:?}")))
@@ -178,12 +190,24 @@ impl Subject for SPNCounter {
     }
     fn edit(s: &Self::St, actor: Option<u8>, e: EditArgs, _aux: &mut Aux) -> Option<(Self::Op, Sem, String)> {
         let a = actor?;
-        let st = steps_of(e.b);
-        let (op, steps, want_pos, call) = match idx(e.kind, 4) {
+        let cur_p = s.inc_many(a, 0).dot.counter;
+        let cur_n = s.dec_many(a, 0).dot.counter;
+        let kind = match idx(e.kind, 4) {
+            0 if cur_p >= COUNTER_LIMIT => 2,
+            1 if cur_n >= COUNTER_LIMIT => 3,
+            k => k,
+        };
+        let (op, steps, want_pos, call) = match kind {
             0 => (s.inc(a), 1, true, format!("inc({a})")),
             1 => (s.dec(a), 1, false, format!("dec({a})")),
-            2 => (s.inc_many(a, st), st, true, format!("inc_many({a}, {st})")),
-            _ => (s.dec_many(a, st), st, false, format!("dec_many({a}, {st})")),
+            2 => {
+                let st = steps_of(e.b, cur_p);
+                (s.inc_many(a, st), st, true, format!("inc_many({a}, {st})"))
+            }
+            _ => {
+                let st = steps_of(e.b, cur_n);
+                (s.dec_many(a, st), st, false, format!("dec_many({a}, {st})"))
+            }
         };
         // the model uses the REQUESTED direction and step count
         let sem = Sem::Inc { dot: (op.dot.actor, op.dot.counter), steps, pos: want_pos };
